@@ -6,7 +6,7 @@ use nimc::dd::DD;
 use nimc::fl::{same_bits, vec_exact, Fl};
 use nimc::rat::Rat;
 use nimc::refm::{bilinear_ref, bracket_scan, chord_ref, err_dd, RefSpline};
-use nimc::spl::{bc_configs, k_for};
+use nimc::spl::{bc_configs_coarse as bc_configs, k_for};
 use nimc::subj::{
     build_bilinear, build_linear, build_spline, call1d, call2d, lanes_matrix, BcSpec,
 };
